@@ -179,6 +179,7 @@ EProds(h) ==
                \cup (IF d <= 0 THEN {} ELSE
                      {Hole("I", d, h.p, h.w, h.a), Hole("Q", d, h.p, h.w, h.a),
                       Op("bin", "<", <<I, I>>), Op("bin", "==", <<A, A>>), Op("bin", "in", <<A, Q>>),
+                      Op("bin", "in", <<I, Op("tuple", "", <<I, I>>)>>),        \* membership in a display
                       Op("not", "", <<A>>), Op("and", "", <<A, A>>), Op("or", "", <<A, A>>), Op("cond", "", <<A, A, A>>),
                       CallN(Nm("any"), <<Q>>), CallN(Nm("all"), <<Q>>), CallN(Nm("bool"), <<A>>), Op("sub", "", <<Q, I>>),
                       Lam("A")}
